@@ -40,7 +40,9 @@ ASSUMPTIONS = [
 ]
 
 MODS = ["", "-", "+"]
-RT_VARIANTS = ["out", "set", "if", "for", "filter", "test", "expr", "attr", "callarg", "elif", "callhead", "recfor"]
+RT_VARIANTS = ["out", "set", "if", "for", "filter", "test", "expr", "attr", "callarg", "elif", "callhead", "recfor",
+               "with", "with2", "autoesc", "trans", "trans2", "nsset", "nsset2", "include", "import", "from", "filterblock",
+               "setblock", "callblock", "macrodefault"]
 SYN_VARIANTS = ["unexpected_end", "unknown_tag", "bad_pipe", "unterminated_str", "missing_expr", "two_names",
                 "unknown_filter", "unknown_test", "dup_kwarg", "bad_assign", "stray_end"]
 
@@ -53,6 +55,14 @@ RT_SRC = {
     "elif": "{%%%s if false %s%%}a\n\n@@{%% elif boom() %%}b\n{%% else %%}c\n{%% endif %%}",
     "callhead": "@@{%%%s call cbh(boom()) %s%%}\nbody\n\n{%% endcall %%}",
     "recfor": "@@{%%%s for rv in boom() recursive %s%%}\n{{ rv }}\n\n{%% endfor %%}",
+    "with": "{%%%s with w = boom() %s%%}x{%% endwith %%}", "with2": "{%%%s with w = 1, w2 = boom() %s%%}x{%% endwith %%}",
+    "autoesc": "{%%%s autoescape boom() %s%%}x{%% endautoescape %%}",
+    "trans": "{%%%s trans tv=boom() %s%%}{{ tv }}{%% endtrans %%}", "trans2": "{%%%s trans ta=1, tv=boom() %s%%}{{ tv }}{%% endtrans %%}",
+    # not a namespace: raises TemplateRuntimeError instead of Boom
+    "nsset": "{%%%s set bobj.v = 1 %s%%}", "nsset2": "{%%%s set q1, bobj.v = 1, 2 %s%%}",
+    "include": "{%%%s include boom() %s%%}", "import": "{%%%s import boom() as q2 %s%%}", "from": "{%%%s from boom() import q3 %s%%}",
+    "filterblock": "{%%%s filter boomf %s%%}x{%% endfilter %%}", "setblock": "{%%%s set q4 | boomf %s%%}x{%% endset %%}",
+    "callblock": "{%%%s call boom() %s%%}x{%% endcall %%}", "macrodefault": "{%%%s macro md(a=boom()) %s%%}{{ a }}{%% endmacro %%}{{ md() }}",
 }
 SYN_SRC = {
     "unexpected_end": "{{%s 1 + %s}}", "unknown_tag": "{%%%s frobnicate %s%%}", "bad_pipe": "{{%s x | %s}}",
@@ -299,7 +309,8 @@ def check_case(case):
         return sources[name], fnames[name], lambda: True
 
     env = jinja2.Environment(loader=jinja2.FunctionLoader(load), trim_blocks=envo["trim"], lstrip_blocks=envo["lstrip"],
-                             enable_async=envo["async"], cache_size=0)
+                             enable_async=envo["async"], cache_size=0, extensions=["jinja2.ext.i18n"])
+    env.install_null_translations()
     env.filters["boomf"] = _boom
     env.tests["boomt"] = _boom
     # globals, so that imported (context-free) templates see them too
@@ -322,7 +333,8 @@ def check_case(case):
             raise core.Violation("TemplateSyntaxError names template %r / file %r, expected %r / %r -- %s" % (e.name, e.filename, ftpl, fnames[ftpl], desc))
     except (Boom, jinja2.TemplateRuntimeError) as e:
         deferred = case["fault"]["variant"] in ("unknown_filter", "unknown_test")
-        if isinstance(e, jinja2.UndefinedError) or (not isinstance(e, Boom) and not deferred):
+        nsset = case["fault"]["variant"] in ("nsset", "nsset2") and "non-namespace" in str(e)
+        if isinstance(e, jinja2.UndefinedError) or (not isinstance(e, Boom) and not deferred and not nsset):
             raise core.Violation("unexpected %s: %s -- %s" % (type(e).__name__, e, desc))
         # an unknown filter/test inside a conditional branch is documented to fail only when reached at runtime
         if kind != "rt" and not deferred:
